@@ -40,9 +40,19 @@ theorem C17_alphabet_complete :
 theorem C17_ensure_copy_rules :
     Gen.SMSites.ensureCopyRules =
       [("value is None", "None"),
-       ("isinstance(value, np.ndarray)", "copy.deepcopy(value) if value.dtype.hasobject else value.copy()"),
+       ("isinstance(value, np.ndarray)", "_deepcopy_array(value) if value.dtype.hasobject else value.copy()"),
        ("isinstance(value, (list, tuple, dict))", "copy.deepcopy(value)"),
        ("otherwise", "value")] := by decide
+
+/-- the deep-copy walker `_deepcopy_array` (F41 repair), statement by statement: a buffer copy, then every reference reachable
+    through record fields (so also through SUB-ARRAY fields, which `copy.deepcopy(ndarray)` skips) is replaced by its deep copy.
+    The model's `deepCopy` is what this text is taken to mean (trusted base: the reading of these six statements); that the
+    copies are in fact deep for every blob kind incl. sub-array-of-objects records is checked against the real code every run. -/
+theorem C17_deepcopy_array_def :
+    Gen.SMSites.deepcopyArrayDef =
+      ["(a)", "out = a.copy(order='K')", "memo = {}",
+       "def walk(view):     if view.dtype.names:         for name in view.dtype.names:             if view.dtype[name].hasobject:                 walk(view[name])     else:         for idx in np.ndindex(view.shape):             view[idx] = copy.deepcopy(view[idx], memo)",
+       "walk(out)", "return out"] := rfl
 
 /-- what every public method returns: a copy, a freshly built (and, for object dtype, deep-copied) stack, the export made of
     copies, a freshly computed value, the caller's own `default`, an int, a new manager, or nothing.  No `raw:` row:
